@@ -7,7 +7,6 @@ import (
 	"path/filepath"
 	"runtime"
 	"runtime/debug"
-	"strconv"
 	"strings"
 	"time"
 
@@ -31,7 +30,9 @@ type luaRes struct {
 	x  *luaRun
 }
 
-func (v *luaRes) ReleaseResources(d *rt.UserData) { v.x.tok("R:" + strconv.Itoa(v.id)) }
+func (v *luaRes) ReleaseResources(d *rt.UserData) {
+	v.x.tok(fmt.Sprintf("R:%d@%d", v.id, rt.VerifGCContextDepth(v.x.r)))
+}
 
 type luaRun struct {
 	r    *rt.Runtime
@@ -48,26 +49,39 @@ func (x *luaRun) tok(s string) {
 const prelude = `
 local GCMT = {}
 GCMT.__gc = function(o) hgc(o.id) end
+local RAISEMT = {}
+RAISEMT.__gc = function(o) hgc(o.id); error("finaliser raises") end
 local RESMT = {}
 RESMT.__gc = function(o) hgc(resid(o)) end
 saved = {}
 local KEEPMT = {}
 KEEPMT.__gc = function(o) hgc(o.id); saved[o.id] = o end
 function mk(id) local t = setmetatable({id = id}, GCMT); hmark(id, 1); return t end
+function mkraise(id) local t = setmetatable({id = id}, RAISEMT); hmark(id, 1); return t end
 function mkkeep(id) local t = setmetatable({id = id}, KEEPMT); hmark(id, 1); return t end
 function remark(t) setmetatable(t, GCMT); hmark(t.id, 1); return t end
-function mkres(id, withgc) if withgc then return newres(id, RESMT) else return newres(id, nil) end end
+-- releasable userdata made by Go: kind = "gc" (metatable with __gc), "plain" (metatable without), "nometa" (no metatable)
+function mkres(id, kind) if kind == "gc" then return newres(id, RESMT) elseif kind == "plain" then return newres(id, {}) else return newres(id, nil) end end
 function spin() local i = 0 while true do i = i + 1 end end
+function memhog() local t = {} while true do t[#t + 1] = ("x"):rep(4096) .. #t end end
 local depth = 0
-local budget = {3000000, 300000, 30000}
-function ctx(body, how)
-  hctx("B")
+-- a killed inner context charges its parent: give every level a tenth of its parent's budget
+local cpubudget = {3000000, 300000, 30000}
+local membudget = {8000000, 800000, 80000}
+-- lims: which hard limits the context has, a non-empty subset of "cmt" (cpu, memory, millis); ANY of them
+-- gives the context its own pool
+function ctx(body, how, lims)
+  lims = lims or "c"
+  hctx("B:0")
   depth = depth + 1
-  -- a killed inner context charges its parent: give every level a tenth of its parent's budget
-  local c = runtime.callcontext({kill = {cpu = budget[depth]}}, function()
+  local kill = {}
+  if lims:find("c") then kill.cpu = cpubudget[depth] end
+  if lims:find("m") then kill.memory = membudget[depth] end
+  if lims:find("t") then kill.millis = 20000 end
+  local c = runtime.callcontext({kill = kill}, function()
     body()
     if how == "error" then hctx("Q"); error("boom") end
-    if how == "killed" then spin() end
+    if how == "killed" then if kill.cpu then spin() else memhog() end end
     hctx("Q")
   end)
   depth = depth - 1
@@ -86,7 +100,7 @@ func newLuaRun() *luaRun {
 	}
 	set("hgc", 1, func(t *rt.Thread, c *rt.GoCont) (rt.Cont, error) {
 		n, _ := c.IntArg(0)
-		x.tok("G:" + strconv.Itoa(int(n)))
+		x.tok(fmt.Sprintf("G:%d@%d", n, rt.VerifGCContextDepth(t.Runtime)))
 		return c.Next(), nil
 	})
 	set("hmark", 2, func(t *rt.Thread, c *rt.GoCont) (rt.Cont, error) {
@@ -109,13 +123,13 @@ func newLuaRun() *luaRun {
 	})
 	set("newres", 2, func(t *rt.Thread, c *rt.GoCont) (rt.Cont, error) {
 		n, _ := c.IntArg(0)
-		var meta *rt.Table
+		var meta *rt.Table // nil: a releasable userdata without any metatable
 		flags := 2
 		if m, ok := c.Arg(1).TryTable(); ok {
 			meta = m
-			flags = 3
-		} else {
-			meta = rt.NewTable()
+			if !rt.RawGet(m, rt.StringValue("__gc")).IsNil() {
+				flags = 3
+			}
 		}
 		// token first: NewUserDataValue marks
 		x.tok(fmt.Sprintf("M:%d:%d", n, flags))
@@ -171,11 +185,13 @@ func genLuaScript(rng *hlib.Rng) string {
 			case c < 30:
 				fmt.Fprintf(&b, "keep%d = mk(%d)\n", depth, next()) // kept in a global, maybe overwritten later
 			case c < 38:
-				fmt.Fprintf(&b, "mkres(%d, %v)\n", next(), rng.Bool())
+				fmt.Fprintf(&b, "mkres(%d, %q)\n", next(), resKinds[rng.Below(3)])
 			case c < 44:
-				fmt.Fprintf(&b, "keepres%d = mkres(%d, %v)\n", depth, next(), rng.Bool())
-			case c < 50:
+				fmt.Fprintf(&b, "keepres%d = mkres(%d, %q)\n", depth, next(), resKinds[rng.Below(3)])
+			case c < 47:
 				fmt.Fprintf(&b, "mkkeep(%d)\n", next()) // resurrects itself in its finaliser
+			case c < 50:
+				fmt.Fprintf(&b, "mkraise(%d)\n", next()) // its finaliser raises
 			case c < 58:
 				fmt.Fprintf(&b, "do local t = mk(%d); remark(t) end\n", next())
 			case c < 64:
@@ -194,9 +210,13 @@ func genLuaScript(rng *hlib.Rng) string {
 				b.WriteString("gcwait()\n") // Go finalisers queued, no step guaranteed before what follows
 			case c < 100 && depth < 2:
 				how := []string{"done", "error", "killed"}[rng.Below(3)]
+				lims := []string{"c", "m", "t", "cm", "ct", "mt", "cmt"}[rng.Below(7)]
+				if lims == "t" && how == "killed" {
+					how = "done" // nothing to exhaust quickly
+				}
 				b.WriteString("ctx(function()\n")
 				emit(depth+1, 1+rng.Below(4))
-				fmt.Fprintf(&b, "end, %q)\n", how)
+				fmt.Fprintf(&b, "end, %q, %q)\n", how, lims)
 				// values marked in that context's pool must not be re-marked in another pool (the real
 				// runtime.SetFinalizer would throw and take the harness down; see `crash`)
 				fmt.Fprintf(&b, "keep%d = nil keepres%d = nil\n", depth+1, depth+1)
@@ -207,29 +227,45 @@ func genLuaScript(rng *hlib.Rng) string {
 	return b.String()
 }
 
+var resKinds = []string{"gc", "plain", "nometa"}
+
 var fixedLua = map[string]string{
 	// every value still referenced at close: all finalised in reverse order of marking, then released
-	"close-order": `a = mk(1) b = mkres(2, true) c = mk(3) d = mkres(4, false) remark(a)`,
+	"close-order": `a = mk(1) b = mkres(2, "gc") c = mk(3) d = mkres(4, "plain") remark(a)`,
 	// dropped, collected and finalised while running; nothing left for close
-	"pending": `mk(1) mkres(2, true) mkres(3, false) gcwait() collectgarbage() gcwait() collectgarbage()`,
+	"pending": `mk(1) mkres(2, "gc") mkres(3, "plain") gcwait() collectgarbage() gcwait() collectgarbage()`,
 	// dropped, Go finaliser has run, then Close with no continuation step in between (harness does the GC)
 	"gc-before-close": `mk(1) keep = mk(2)`,
 	// the same at the end of an isolating callcontext
 	"gc-before-context-end": `ctx(function() mk(1) keep = mk(2) gcwait() end, "done")`,
-	"killed":                `ctx(function() mk(1) k2 = mkres(2, true) mkres(3, false) end, "killed")`,
-	"error":                 `ctx(function() mk(1) k2 = mkres(2, true) mkres(3, false) end, "error")`,
-	"nested":                `a = mk(1) ctx(function() b = mk(2) ctx(function() c = mkres(3, true) end, "killed") d = mk(4) end, "done") e = mk(5)`,
+	"killed":                `ctx(function() mk(1) k2 = mkres(2, "gc") mkres(3, "plain") end, "killed")`,
+	"error":                 `ctx(function() mk(1) k2 = mkres(2, "gc") mkres(3, "plain") end, "error")`,
+	"nested":                `a = mk(1) ctx(function() b = mk(2) ctx(function() c = mkres(3, "gc") end, "killed") d = mk(4) end, "done") e = mk(5)`,
 	"resurrect":             `mkkeep(1) gcwait() collectgarbage() gcwait() collectgarbage()`,
+	// every kind of hard limit gives the context its own pool: finalised INSIDE it, BY its end
+	"ctx-memory-only":   `ctx(function() k1 = mk(1) k2 = mkres(2, "gc") mkres(3, "nometa") end, "done", "m")`,
+	"ctx-millis-only":   `ctx(function() k1 = mk(1) k2 = mkres(2, "gc") mkres(3, "nometa") end, "error", "t")`,
+	"ctx-memory-killed": `ctx(function() k1 = mk(1) k2 = mkres(2, "gc") k3 = mkres(3, "nometa") end, "killed", "m")`,
+	"ctx-all-limits":    `ctx(function() k1 = mk(1) ctx(function() k2 = mk(2) end, "done", "mt") k3 = mk(3) end, "done", "cmt")`,
+	// releasable userdata is released whatever its metatable
+	"res-nometa":     `a = mkres(1, "nometa") mkres(2, "nometa") b = mkres(3, "plain") gcwait() collectgarbage()`,
+	"res-nometa-ctx": `ctx(function() a = mkres(1, "nometa") mkres(2, "plain") end, "done", "c") ctx(function() b = mkres(3, "nometa") end, "killed", "c")`,
+	// finalisers that raise do not stop the others: first / middle / last of a batch; at close, at a context's end, at a step
+	"raise-close":   `a = mkraise(1) b = mk(2) c = mkraise(3) d = mk(4) e = mkraise(5)`,
+	"raise-ctx-end": `ctx(function() a = mk(1) b = mkraise(2) c = mk(3) end, "done", "c") ctx(function() d = mkraise(4) e = mk(5) end, "error", "m")`,
+	"raise-step":    `mk(1) mkraise(2) mk(3) mkraise(4) gcwait() collectgarbage() gcwait() collectgarbage()`,
 }
 
-var fixedOrder = []string{"close-order", "pending", "gc-before-close", "gc-before-context-end", "killed", "error", "nested", "resurrect"}
+var fixedOrder = []string{"close-order", "pending", "gc-before-close", "gc-before-context-end", "killed", "error", "nested", "resurrect",
+	"ctx-memory-only", "ctx-millis-only", "ctx-memory-killed", "ctx-all-limits", "res-nometa", "res-nometa-ctx",
+	"raise-close", "raise-ctx-end", "raise-step"}
 
 func runLuaScenario(name string, seed uint64, verbose bool) string {
 	var src string
 	if name == "random" {
 		src = genLuaScript(hlib.NewRng(seed))
-	} else if name == "iofile" {
-		return ioFileScenario()
+	} else if strings.HasPrefix(name, "iofile") {
+		return ioFileScenario(name[len("iofile"):])
 	} else {
 		src = fixedLua[name]
 	}
@@ -251,8 +287,9 @@ func runLuaScenario(name string, seed uint64, verbose bool) string {
 	return fmt.Sprintf("lua %s = %s %d %s gcb=%d", strings.Join(x.toks, " "), name, seed, strings.Fields(st)[0], gcb)
 }
 
-// io files are releasable userdata: an unflushed, unclosed file must be flushed and closed by Close.
-func ioFileScenario() string {
+// io files are releasable userdata made by Lua code: an unflushed, unclosed file must be flushed and closed
+// by the end of the context that owns it (where = "" : the root, closed by Close; else a callcontext ending that way).
+func ioFileScenario(where string) string {
 	dir, err := ioutil.TempDir("", "c18")
 	if err != nil {
 		return "lua = iofile 0 tempdir-failed"
@@ -260,23 +297,55 @@ func ioFileScenario() string {
 	defer os.RemoveAll(dir)
 	path := filepath.Join(dir, "f.txt")
 	x := newLuaRun()
-	x.tok("M:1:2")
-	st := x.run(fmt.Sprintf("local f = io.open(%q, 'w'); f:write('payload')", path))
-	x.tok("C")
-	x.r.Close(nil)
-	if data, err := ioutil.ReadFile(path); err == nil && string(data) == "payload" {
-		x.tok("R:1")
+	flushed := func() bool {
+		data, err := ioutil.ReadFile(path)
+		return err == nil && string(data) == "payload"
 	}
-	x.tok("Z")
-	return fmt.Sprintf("lua %s = iofile 0 %s gcb=0", strings.Join(x.toks, " "), strings.Fields(st)[0])
+	x.r.SetEnvGoFunc(x.r.GlobalEnv(), "hfile", func(t *rt.Thread, c *rt.GoCont) (rt.Cont, error) {
+		if flushed() {
+			x.tok("R:1")
+		}
+		return c.Next(), nil
+	}, 0, false)
+	var st string
+	if where == "" {
+		x.tok("M:1:2")
+		st = x.run(fmt.Sprintf("local f = io.open(%q, 'w'); f:write('payload')", path))
+		x.tok("C")
+		x.r.Close(nil)
+		if flushed() {
+			x.tok("R:1")
+		}
+		x.tok("Z")
+	} else {
+		tail := ""
+		switch where {
+		case "error":
+			tail = `error("boom")`
+		case "killed":
+			tail = `spin()`
+		}
+		st = x.run(fmt.Sprintf(`hctx("B:0")
+local c = runtime.callcontext({kill = {cpu = 1000000}}, function()
+  local f = io.open(%q, 'w'); hmark(1, 2); f:write('payload')
+  %s
+end)
+hfile()
+hctx("E:" .. c.status)`, path, tail))
+		x.close()
+	}
+	x.on = false
+	return fmt.Sprintf("lua %s = iofile%s 0 %s gcb=0", strings.Join(x.toks, " "), where, strings.Fields(st)[0])
 }
 
 func luaLeg(thorough bool) {
 	for _, name := range fixedOrder {
 		hlib.Emit(runLuaScenario(name, 0, false))
 	}
-	hlib.Emit(runLuaScenario("iofile", 0, false))
-	n := 100
+	for _, w := range []string{"", "done", "error", "killed"} {
+		hlib.Emit(runLuaScenario("iofile"+w, 0, false))
+	}
+	n := 70
 	if thorough {
 		n = 600
 	}
